@@ -1,6 +1,8 @@
 CONSTANTS MaxEdits = 2
+ Flaw_DirNames = FALSE
  Flaw_Paths = TRUE
  Flaw_NoOutput = FALSE
+ Flaw_Args = FALSE
  Shape = 0
  Menu = "all"
  EmitAll = FALSE
